@@ -109,6 +109,16 @@ def inv_task(task):
         probs.append(f"{unrec} tokens took the unrecognised path without a fatal diagnostic")
     if r.trace and len(r.trace[-1][5]) != 1:
         probs.append(f"nesting depth at end of file is {len(r.trace[-1][5])}")
+    if label.startswith("closing:"):
+        # the members of a type block are examined inside its scope: a pop that starts on a member line happens at depth 2
+        lines = text.split("\n")
+        depth_before = 1
+        for x in r.trace or []:
+            if x[3] is not None and 1 <= x[3][0] <= len(lines) and lines[x[3][0] - 1].startswith("\t") and depth_before < 2 \
+                    and lines[x[3][0] - 1].strip() and x[3][1] == 1:
+                probs.append(f"a member line is examined at file level (depth {depth_before})")
+                break
+            depth_before = len(x[5])
     if r.stdout:
         probs.append("stray output")
     return probs
@@ -228,8 +238,13 @@ def run(tier, seed):
     from ..model import header42
     closings = ["}\tt_item;", "}\t*t_item;", "}\t**t_item;", "}\tt_item, *t_pitem;", "};", "}\tt_item[2];", "} __attribute__((packed))\tt_item;",
                 "}\t*t_item, t_val;", "}\t(*t_item);"]
-    for kw, tag in (("struct", "s_item"), ("union", "u_item"), ("enum", "e_item")):
-        members = "\tITEM_A,\n\tITEM_B\n" if kw == "enum" else "\tint\t\tvalue;\n\tchar\t*name;\n"
+    for kw, tag, members in (("struct", "s_item", "\tint\t\tvalue;\n\tchar\t*name;\n"), ("union", "u_item", "\tint\t\tvalue;\n\tchar\t*name;\n"),
+                             ("enum", "e_item", "\tITEM_A,\n\tITEM_B\n"),
+                             # a function pointer, an array, a nested struct pointer, a bit-field as the *first* member
+                             ("struct", "s_item", "\tint\t\t(*cmp)(const void *a, const void *b);\n\tchar\t*name;\n"),
+                             ("union", "u_item", "\tvoid\t(*run)(void);\n\tint\t\tvalue;\n"),
+                             ("struct", "s_item", "\tchar\tbuf[4];\n\tstruct s_item\t*next;\n"),
+                             ("struct", "s_item", "\tunsigned int\tflag : 1;\n\tint\t\t\t\tvalue;\n")):
         for cl in closings:
             head = (f"typedef {kw} {tag}\n" if not cl == "};" else f"{kw} {tag}\n")
             blk = head + "{\n" + members + cl + "\n"
@@ -248,7 +263,7 @@ def run(tier, seed):
     st.bump("violating_and_separator_programs", len(vtasks))
     for (fname, text, label), probs in zip(vtasks, vres):
         for pr in probs:
-            failures.append(Failure("C07", f"{label}:{pr.split(' (')[0][:50]}", f"{label}: {pr}", {"kind": "inv", "fname": fname, "text": text}))
+            failures.append(Failure("C07", f"{label}:{pr.split(' (')[0][:50]}", f"{label}: {pr}", {"kind": "inv", "fname": fname, "text": text, "label": label}))
     from .. import corpus
     smp = list(corpus.samples())
     sres = explore.pmap(sample_task, smp, chunksize=2)
@@ -294,7 +309,7 @@ def replay(payload):
         r = impl.run_text(payload["fname"], payload["text"])
         return [Failure("C07", "strict", "the file with the fragment is still OK!", payload)] if r.exc is None and r.status == "OK" else []
     if payload["kind"] == "inv":
-        return [Failure("C07", "invariant", p, payload) for p in inv_task((payload["fname"], payload["text"], ""))]
+        return [Failure("C07", "invariant", p, payload) for p in inv_task((payload["fname"], payload["text"], payload.get("label", "")))]
     if payload["kind"] == "frag":
         t = payload["task"]
         o = frag_task((t[0], tuple(t[1]), t[2], t[3], t[4]))
